@@ -517,3 +517,50 @@ func vfH_server_boundary() {
 	vfAssert(rerr != nil, "c17-nothing-duplicated")
 	vfReach("server-boundary-end")
 }
+
+// vfH_origin_wiring (C13.H2): the default origin policy as wired into Upgrade:
+// with CheckOrigin nil, a request is upgraded iff it has no Origin header or
+// the Origin's host equals the request Host under ASCII case folding - for
+// Origin hosts of arbitrary bytes (covering the Unicode characters that fold to
+// ASCII letters) against short ASCII hosts, and for port / suffix variants.
+func vfH_origin_wiring() {
+	vfInit()
+	vfClockMaxStep(int64(time.Second))
+	host := "k.io"
+	var ohost string
+	switch vfChoose(5) {
+	case 0:
+		ohost = vfString(4) // same length, arbitrary bytes
+	case 1:
+		ohost = vfString(6) // e.g. E2 84 AA ".io" (KELVIN SIGN)
+	case 2:
+		host, ohost = "s.io:80", "s.io"
+	case 3:
+		host, ohost = "s.io", "s.io:80"
+	case 4:
+		host = "as.io"
+		ohost = vfString(6) // e.g. "a" C5 BF ".io" (LONG S)
+	}
+	for i := 0; i < len(ohost); i++ {
+		vfAssume(vfAnd(ohost[i] != '\r', ohost[i] != '\n'))
+	}
+	origin := "https://" + ohost
+	vfHintURL(origin, &vfURLParts{scheme: "https", host: ohost})
+	hdr := http.Header{"Connection": {"Upgrade"}, "Upgrade": {"websocket"}, "Sec-Websocket-Version": {"13"},
+		"Sec-Websocket-Key": {"dGhlIHNhbXBsZSBub25jZQ=="}, "Origin": {origin}}
+	r := &http.Request{Method: "GET", Host: host, Header: hdr}
+	tc := vfNewConn(nil)
+	rw := &vfRW{conn: tc, br: bufio.NewReaderSize(tc, 4096), bw: bufio.NewWriterSize(tc, 4096)}
+	u := &Upgrader{}
+	c, err := u.Upgrade(rw, r, nil)
+	same := vfFoldEqT(ohost, host)
+	if c != nil {
+		vfAssert(same, "c13-only-same-origin-is-upgraded")
+		vfReach("origin-accepted")
+	} else {
+		vfAssert(err != nil, "c12-conn-xor-error")
+		vfAssert(!same, "c13-same-origin-is-upgraded")
+		vfAssert(rw.status == 403 && rw.hijacked == 0, "c13-other-origin-gets-403-without-hijack")
+		vfReach("origin-refused")
+	}
+}
